@@ -46,7 +46,9 @@ HEADS = [("F()", []), ("F(x)", ["x"]), ("F(x,y)", ["x", "y"]), ("F(x,...)", ["x"
 NAMED = {"F(x,rest...)": "rest"}
 ITEMS = ["x", "1", "+", "G", "y", "#x", "x##y", "x##1", "__VA_ARGS__", "H",
          "1##x", "#__VA_ARGS__", "F", "(", ")", ",", "F(x)", "y##__VA_ARGS__", "x##y##1", "#y"]
-GDEFS = [("G", "F"), ("G", "1"), ("G(y)", "F(y)"), ("G", "H"), ("G", "F(H)"), ("G", "G"), ("G(y)", "y H"), ("G", "x"), ("G(y)", "y")]
+# ("G", "G 1"): a self-referential object-like macro whose painted name is the first token of a pre-expanded argument
+# (an extra expansion of `#define G G` would be invisible)
+GDEFS = [("G", "F"), ("G", "1"), ("G(y)", "F(y)"), ("G", "H"), ("G", "G 1"), ("G", "F(H)"), ("G", "G"), ("G(y)", "y H"), ("G", "x"), ("G(y)", "y")]
 HDEFS = [("H", "2"), ("H", "G"), ("H", "x##1 F")]
 INVS = ["F(1)", "F(1,2)", "F()", "F(G)", "F(F(1))", "F(1)(2)", "F (1,2,3)", "F", "F(H,G)", "G(3)", "H(F)(1)", "F((1,2),3)",
         "F(,)", "G", "F(F)(2)", "F(a b, c)", 'F("s")', "F(G(3))", "G(F)(1)", "H", "F(1,G(2),H)",
@@ -97,7 +99,7 @@ def h_expand(i1: int, i2: int, i3: int, g: int, h: int) -> bool:
     post: _
     """
     idx = []
-    for v, n in ((i1, len(ITEMS)), (i2, len(ITEMS)), (i3, len(ITEMS)), (g, 9), (h, 3)):
+    for v, n in ((i1, len(ITEMS)), (i2, len(ITEMS)), (i3, len(ITEMS)), (g, len(GDEFS)), (h, 3)):
         for k in range(n):
             if v == k:
                 idx.append(k)
@@ -389,9 +391,9 @@ def obligations(tier, known):
     obs = []
     regions = sorted(known)
     if tier == "quick":
-        nitems, ng, nh, invs = 8, 4, 2, list(range(12)) + [21, 22, 23]
+        nitems, ng, nh, invs = 8, 5, 2, list(range(12)) + [21, 22, 23]
     else:
-        nitems, ng, nh, invs = len(ITEMS), 9, 3, list(range(len(INVS)))
+        nitems, ng, nh, invs = len(ITEMS), len(GDEFS), 3, list(range(len(INVS)))
     def some_valid(hd, iv):
         for body in ("1 1", "x 1", "x y", "__VA_ARGS__ 1"):
             try:
